@@ -214,12 +214,30 @@ enum Exp {
 
 struct Check {
     path: Vec<&'static str>,
+    /// what the standard says the field must decode to (the value given to the encoder)
     exp: Exp,
     class: &'static str,
+    /// a recorded deviation (known finding): when `exp` fails and the decoder reports exactly this value
+    /// instead, the failure is filed under this class; anything else stays in `class`
+    quirk: Option<(Exp, &'static str)>,
 }
 
 fn ck(path: &[&'static str], exp: Exp, class: &'static str) -> Check {
-    Check { path: path.to_vec(), exp, class }
+    Check { path: path.to_vec(), exp, class, quirk: None }
+}
+
+/// The two recorded ways in which the decoder loses an altitude the standard can encode: its result types
+/// are unsigned (`Option<u16>` in BDS 0,5, `u16` in the AC field), so an altitude at or below 0 ft (25 ft
+/// encoding −1000 … 0 ft, Gillham −1200 … −100 ft) and a Gillham altitude above 65 500 ft are reported as
+/// `unavail` (null, resp. 0).  The ORACLE still expects the encoded altitude; this only names the class.
+fn alt_quirk(kind: &str, alt: i64, unavail: Exp) -> Option<(Exp, &'static str)> {
+    if alt <= 0 {
+        Some((unavail, "altitude-nonpositive-unavailable"))
+    } else if kind == "g" && alt > 65500 {
+        Some((unavail, "altitude-gillham-above-65500-unavailable"))
+    } else {
+        None
+    }
 }
 
 fn lookup<'a>(v: &'a Value, path: &[&str]) -> Option<&'a Value> {
@@ -254,12 +272,10 @@ fn p_u(s: &str) -> Option<u64> {
     s.parse().ok()
 }
 
-/// altitude a decoder with a `u16` / `Option<u16>` result can report (DESIGN §6.1: 0 ft and below, and
-/// Gillham altitudes above 65 500 ft, are "unavailable")
-fn representable_alt(kind: &str, alt: i64) -> Option<i64> {
+/// the altitude (ft) an `<q|g|z> <value>` pair of an op line stands for; `z` (all-zero field) = not available
+fn true_alt(kind: &str, alt: i64) -> Option<i64> {
     match kind {
-        "q" if alt > 0 => Some(alt),
-        "g" if (0..=65500).contains(&alt) => Some(alt),
+        "q" | "g" => Some(alt),
         _ => None,
     }
 }
@@ -271,7 +287,10 @@ fn payload(m: &mut Msg, kind: &str, w: &[&str], pre: &[&'static str], cks: &mut 
         p.push(k);
         p
     };
-    let mut add = |k: &'static str, e: Exp, class: &'static str| cks.push(Check { path: path(k), exp: e, class });
+    let first_new = cks.len();
+    // recorded deviations (key, value the decoder is known to report instead, class), attached after the match
+    let mut quirks: Vec<(&'static str, Option<(Exp, &'static str)>)> = Vec::new();
+    let mut add = |k: &'static str, e: Exp, class: &'static str| cks.push(Check { path: path(k), exp: e, class, quirk: None });
     match (kind, w) {
         ("pos", [tc, ss, saf, ak, av, t, f, lat, lon]) => {
             let (tc, ss, saf, t, f, lat, lon) = (p_u(tc)?, p_u(ss)?, p_u(saf)?, p_u(t)?, p_u(f)?, p_u(lat)?, p_u(lon)?);
@@ -286,10 +305,9 @@ fn payload(m: &mut Msg, kind: &str, w: &[&str], pre: &[&'static str], cks: &mut 
             m.put_me(40, 17, lon);
             add("bds", Exp::Str("05".into()), "pos-bds");
             add("tc", Exp::Int(tc as i64), "pos-tc");
-            match representable_alt(ak, alt) {
-                Some(a) => add("altitude", Exp::Int(a), "pos-altitude"),
-                None => add("altitude", Exp::Null, "pos-altitude-unrepresentable"),
-            }
+            // the standard's value, whatever the decoder's result type can hold
+            add("altitude", Exp::Int(alt), "pos-altitude");
+            quirks.push(("altitude", alt_quirk(ak, alt, Exp::Null)));
             add("source", Exp::Str(if tc < 19 { "barometric" } else { "GNSS" }.into()), "pos-source");
             add("parity", Exp::Str(if f == 0 { "even" } else { "odd" }.into()), "pos-cpr");
             add("lat_cpr", Exp::Int(lat as i64), "pos-cpr");
@@ -517,6 +535,12 @@ fn payload(m: &mut Msg, kind: &str, w: &[&str], pre: &[&'static str], cks: &mut 
             add("track", opt(s_trk, Exp::Num((trk as f64 * 90.0 / 512.0).rem_euclid(360.0), 1e-9)), "bds50-track");
             add("groundspeed", opt(s_gs, Exp::Int(2 * gs)), "bds50-groundspeed");
             add("track_rate", opt(s_rate, Exp::Num(rate as f64 * 8.0 / 256.0, 1e-9)), "bds50-rate");
+            // Doc 9871 table A-2-80: two's complement, "not available" = status 0 and all bits ZERO; there is no
+            // all-ones sentinel.  The decoder reports null when the nine magnitude bits are all ones (k = −1 and
+            // k = 511, whatever the sign): recorded deviation
+            if s_rate == 1 && mq == 511 {
+                quirks.push(("track_rate", Some((Exp::Null, "bds50-rate-all-ones-null"))));
+            }
             add("TAS", opt(s_tas, Exp::Int(2 * tas)), "bds50-tas");
         }
         ("hs", [s_hdg, hdg, s_ias, ias, s_mach, mach, s_baro, baro, s_in, inert]) => {
@@ -542,11 +566,24 @@ fn payload(m: &mut Msg, kind: &str, w: &[&str], pre: &[&'static str], cks: &mut 
             add("heading", opt(s_hdg, Exp::Num((hdg as f64 * 90.0 / 512.0).rem_euclid(360.0), 1e-9)), "bds60-heading");
             add("IAS", opt(s_ias, Exp::Int(ias)), "bds60-ias");
             add("Mach", opt(s_mach, Exp::Num(mach as f64 * 2.048 / 512.0, 1e-9)), "bds60-mach");
-            // one quantisation step (32 ft/min): the code reports −32 ft/min as 0
-            add("vrate_barometric", opt(s_baro, Exp::Num(baro as f64 * 32.0, if baro == -1 { 32.0 } else { 0.0 })), "bds60-vrate");
-            add("vrate_inertial", opt(s_in, Exp::Num(inert as f64 * 32.0, if inert == -1 { 32.0 } else { 0.0 })), "bds60-vrate");
+            // Doc 9871 table A-2-96: two's complement, LSB 32 ft/min; −1 LSB is −32 ft/min, not a sentinel.  The
+            // decoder reports it as 0 (magnitude bits all ones): recorded deviation
+            add("vrate_barometric", opt(s_baro, Exp::Int(baro * 32)), "bds60-vrate");
+            add("vrate_inertial", opt(s_in, Exp::Int(inert * 32)), "bds60-vrate");
+            if s_baro == 1 && baro == -1 {
+                quirks.push(("vrate_barometric", Some((Exp::Int(0), "bds60-vrate-minus-one-lsb-zero"))));
+            }
+            if s_in == 1 && inert == -1 {
+                quirks.push(("vrate_inertial", Some((Exp::Int(0), "bds60-vrate-minus-one-lsb-zero"))));
+            }
         }
         _ => return None,
+    }
+    for (k, q) in quirks {
+        let p = path(k);
+        if let Some(c) = cks[first_new..].iter_mut().find(|c| c.path == p) {
+            c.quirk = q;
+        }
     }
     Some(())
 }
@@ -608,9 +645,14 @@ fn build(w: &[&str]) -> Option<(Vec<u8>, Vec<Check>)> {
         } else {
             let alt = p_i(cv)?;
             m.put(20, 13, ac13_of(ck_, alt)? as u64);
-            match representable_alt(ck_, alt) {
-                Some(a) => cks.push(ck(&["altitude"], Exp::Int(a), "surv-altitude")),
-                None => cks.push(ck(&["altitude"], Exp::Int(0), "surv-altitude-unrepresentable")),
+            match true_alt(ck_, alt) {
+                Some(a) => {
+                    let mut c = ck(&["altitude"], Exp::Int(a), "surv-altitude");
+                    c.quirk = alt_quirk(ck_, a, Exp::Int(0));
+                    cks.push(c)
+                }
+                // all-zero AC field: altitude not available, reported as 0
+                None => cks.push(ck(&["altitude"], Exp::Int(0), "surv-altitude-sentinel")),
             }
         }
         if long {
@@ -621,8 +663,10 @@ fn build(w: &[&str]) -> Option<(Vec<u8>, Vec<Check>)> {
                 // the altitude-match clause: labelled BDS 0,5 only when the altitudes agree
                 let mut sub = Vec::new();
                 payload(&mut m, kind, &w[9..], &pre, &mut sub)?;
-                let me_alt = representable_alt(w.get(12)?, p_i(w.get(13)?)?);
-                let ac_alt = if ck_ == "s" { None } else { representable_alt(ck_, p_i(cv)?) };
+                // judged on the altitudes given to the encoder: different altitudes (or no AC altitude at all)
+                // must not be labelled; equal altitudes may be (nothing is demanded: "only if")
+                let me_alt = true_alt(w.get(12)?, p_i(w.get(13)?)?);
+                let ac_alt = if ck_ == "s" { None } else { true_alt(ck_, p_i(cv)?) };
                 if df == 21 || me_alt.is_none() || me_alt != ac_alt {
                     cks.push(ck(&["bds05"], Exp::Absent, "df20-bds05-altitude-mismatch"));
                 }
@@ -705,7 +749,11 @@ fn run_case(out: &mut Out, words: &[String], correspond: bool) {
                     continue;
                 }
                 if !holds(lookup(&v, &c.path), &c.exp) {
-                    out.fail(c.class, &op, &format!("{} decoded as {:?}, encoded {:?}; frame {}", c.path.join("."),
+                    let class = match &c.quirk {
+                        Some((q, qclass)) if holds(lookup(&v, &c.path), q) => qclass,
+                        _ => c.class,
+                    };
+                    out.fail(class, &op, &format!("{} decoded as {:?}, encoded {:?}; frame {}", c.path.join("."),
                         lookup(&v, &c.path), c.exp, hex(&frame)));
                 }
             }
@@ -913,8 +961,9 @@ fn rand_hs(rng: &mut Rng) -> (Option<i64>, Option<i64>, Option<i64>, Option<i64>
 pub fn run(out: &mut Out, rng: &mut Rng, thorough: bool) {
     let mut cases: Vec<Vec<String>> = Vec::new();
 
-    // ---- altitude: all 2^11 codes of the 25 ft encoding, all 1280 Gillham steps; in BDS 0,5 (DF17/18),
-    //      in the AC field of DF4 and DF20
+    // ---- altitude: all 2^11 codes of the 25 ft encoding (−1000 … 50 175 ft), all 1280 Gillham steps
+    //      (−1200 … 126 700 ft); in BDS 0,5 (DF17/18), in the AC field of DF4 and DF20.  The expectation is the
+    //      standard's altitude for every one of them, also at and below 0 ft and above 65 500 ft
     for n in 0..2048i64 {
         let alt = 25 * n - 1000;
         let mut w = es_prefix(rng, "pos");
@@ -1132,7 +1181,8 @@ pub fn run(out: &mut Out, rng: &mut Rng, thorough: bool) {
         let tas = if rng.chance(1, 4) { None } else { Some(rng.range((gs - 100).max(40), (gs + 100).min(250))) };
         cases.push(tt(rng, r, t, Some(gs), q, tas));
     }
-    for rate in (-510..=510i64).filter(|r| *r != -1) {
+    // all 1024 codes, including −1 LSB (−1/32 °/s) and +511 LSB (magnitude bits all ones: recorded deviation)
+    for rate in -512..=511i64 {
         let (_, t, g, _, a) = rand_tt(rng);
         let roll = if rng.chance(1, 3) { None } else { Some(if rate < 0 { -rng.range(0, 284) } else { rng.range(0, 284) }) };
         cases.push(tt(rng, roll, t, g, Some(rate), a));
